@@ -149,20 +149,7 @@ func init() {
 			}
 		}
 		// classifyCloneType, isOverlappingLocation, shouldIncludeFragment: read by evaluation (goeval.go), not by shape
-		cloneDecisions(&b, p)
-		// isSignificantClone: minThreshold <= 0; pair.Similarity < minThreshold; MaxEditDistance > 0; Distance > Max; minSize >= MinNodes
-		if fd := get(p, "clone_detector.go", "CloneDetector", "isSignificantClone"); fd != nil {
-			cs := cmpOps(p, fd)
-			if len(cs) != 5 {
-				fail("isSignificantClone: expected 5 comparisons, got %d", len(cs))
-			} else {
-				emitQcmp("clone_sig_cmp_unset", cs[0])
-				emitQcmp("clone_sig_cmp_below", cs[1])
-				emitQcmp("clone_sig_cmp_distset", cs[2])
-				emitQcmp("clone_sig_cmp_dist", cs[3])
-				emitZcmp("clone_sig_cmp_size", cs[4])
-			}
-		}
+		cloneDecisions(&b, p, sp)
 		if fd := get(p, "clone_detector.go", "CloneDetector", "tryCreateClonePair"); fd != nil {
 			cs := cmpOps(p, fd)
 			if len(cs) != 1 {
@@ -240,16 +227,7 @@ func init() {
 				fail("NewMinHasher: fallback numHashes not found")
 			}
 		}
-		// service: filterClonePairs comparisons and createDetectorConfig literals
-		if fd := get(sp, "clone_service.go", "CloneService", "filterClonePairs"); fd != nil {
-			cs := cmpOps(sp, fd)
-			if len(cs) != 2 || cs[0].y != "req.MinSimilarity" || cs[1].y != "req.MaxSimilarity" {
-				fail("filterClonePairs: unexpected comparisons %v", cs)
-			} else {
-				emitQcmp("clone_filter_cmp_min", cs[0]) // true = dropped
-				emitQcmp("clone_filter_cmp_max", cs[1])
-			}
-		}
+		// service: createDetectorConfig literals (filterClonePairs is read by evaluation in cloneDecisions)
 		if fd := get(sp, "clone_service.go", "CloneService", "createDetectorConfig"); fd != nil {
 			f := compositeFields(fd, "analyzer.CloneDetectorConfig")
 			for _, k := range []string{"MaxClonePairs", "BatchSizeThreshold"} {
@@ -344,8 +322,8 @@ func asString(v Value, err error) (string, error) {
 	return s, nil
 }
 
-func cloneDecisions(b *strings.Builder, p *pkgInfo) {
-	in := newInterp(p)
+func cloneDecisions(b *strings.Builder, p, sp *pkgInfo) {
+	in := newInterp(p, sp)
 	const file, recv = "clone_detector.go", "CloneDetector"
 	pct := func(n int64) float64 { return float64(n) / 100 }
 	detector := func(t1, t2, t3, t4, minNodes, minLines int64) *Struct {
@@ -520,5 +498,134 @@ func cloneDecisions(b *strings.Builder, p *pkgInfo) {
 			}
 		}
 		emitTable(b, "shouldIncludeFragment_table", "((Z * Z) * (Z * Z)) * bool", rows)
+	}
+
+	// ---- isSignificantClone(pair) ----------------------------------------------------------------------
+	if fd := findFunc(p, file, recv, "isSignificantClone"); fd == nil {
+		fail("function not found: %s %s.isSignificantClone", file, recv)
+	} else {
+		// similarities in 1/100, distances in 1/10
+		sig := func(simThr, t4, maxDist, minNodes, sim, dist, size1, size2 int64) (bool, error) {
+			cd := mkStruct("CloneDetector", "cloneDetectorConfig", mkStruct("CloneDetectorConfig", "SimilarityThreshold", pct(simThr), "Type4Threshold", pct(t4),
+				"MaxEditDistance", float64(maxDist)/10, "MinNodes", minNodes))
+			pair := mkStruct("ClonePair", "Similarity", pct(sim), "Distance", float64(dist)/10,
+				"Fragment1", mkStruct("CodeFragment", "Size", size1), "Fragment2", mkStruct("CodeFragment", "Size", size2))
+			return asBool(in.call1(p, fd, cd, pair))
+		}
+		not := func(v bool, err error) (bool, error) { return !v, err }
+		if op, ok := probe3("isSignificantClone: SimilarityThreshold against 0", func(rel int64) (bool, error) {
+			return not(sig(rel, 60, 0, 1, 30, 0, 50, 50))
+		}); ok {
+			emitQ("clone_sig_cmp_unset", "isSignificantClone, SimilarityThreshold a against 0 (true = unset, Type4Threshold is used)", op)
+		}
+		if op, ok := probe3("isSignificantClone: similarity against the threshold", func(rel int64) (bool, error) {
+			return not(sig(50, 60, 0, 1, 50+rel, 0, 50, 50))
+		}); ok {
+			emitQ("clone_sig_cmp_below", "isSignificantClone, pair.Similarity a against the minimum b (true = rejected)", op)
+		}
+		if op, ok := probe3("isSignificantClone: MaxEditDistance against 0", func(rel int64) (bool, error) {
+			return not(sig(50, 60, rel*10, 1, 90, 50, 50, 50))
+		}); ok {
+			emitQ("clone_sig_cmp_distset", "isSignificantClone, MaxEditDistance a against 0 (true = a limit is set)", op)
+		}
+		if op, ok := probe3("isSignificantClone: distance against MaxEditDistance", func(rel int64) (bool, error) {
+			return not(sig(50, 60, 50, 1, 90, 50+rel, 50, 50))
+		}); ok {
+			emitQ("clone_sig_cmp_dist", "isSignificantClone, pair.Distance a against MaxEditDistance b (true = rejected)", op)
+		}
+		if op, ok := probe3("isSignificantClone: smaller fragment size against MinNodes", func(rel int64) (bool, error) {
+			return sig(50, 60, 0, 10, 90, 0, 10+rel, 50)
+		}); ok {
+			emitZ("clone_sig_cmp_size", "isSignificantClone, min(size1, size2) a against MinNodes b (true = accepted)", op)
+		}
+		// decision table: ((((SimilarityThreshold, Type4Threshold), MaxEditDistance), MinNodes), ((similarity, distance), (size1, size2))) -> significant
+		var rows []string
+		bad := false
+		for _, c := range [][4]int64{{50, 60, 0, 10}, {0, 60, 0, 10}, {-1, 60, 30, 10}, {70, 60, 30, 1}, {1, 99, 0, 10}} {
+			for _, sd := range [][2]int64{{c[0] - 1, 0}, {c[0], 0}, {c[0] + 1, 29}, {c[1] - 1, 30}, {c[1], 30}, {c[1] + 1, 31}, {100, 500}, {100, 0}} {
+				for _, sz := range [][2]int64{{c[3] - 1, 50}, {c[3], c[3]}, {50, c[3] + 1}, {50, c[3] - 1}} {
+					v, err := sig(c[0], c[1], c[2], c[3], sd[0], sd[1], sz[0], sz[1])
+					if err != nil {
+						if !bad {
+							fail("isSignificantClone: cannot be evaluated: %v", err)
+						}
+						bad = true
+						continue
+					}
+					rows = append(rows, fmt.Sprintf("(((((%s, %s), %s), %s), ((%s, %s), (%s, %s))), %s)", coqQfrac(c[0], 100), coqQfrac(c[1], 100), coqQfrac(c[2], 10), coqZint(c[3]),
+						coqQfrac(sd[0], 100), coqQfrac(sd[1], 10), coqZint(sz[0]), coqZint(sz[1]), coqBool(v)))
+				}
+			}
+		}
+		if bad {
+			rows = nil
+		}
+		emitTable(b, "isSignificantClone_table", "((((Q * Q) * Q) * Z) * ((Q * Q) * (Z * Z))) * bool", rows)
+	}
+
+	// ---- service.CloneService.filterClonePairs(pairs, req) -------------------------------------------------
+	if fd := findFunc(sp, "clone_service.go", "CloneService", "filterClonePairs"); fd == nil {
+		fail("function not found: clone_service.go CloneService.filterClonePairs")
+	} else {
+		type it struct{ sim, typ int64 }
+		kept := func(lo, hi int64, types []int64, items []it) ([]int64, error) {
+			xs := &Slice{}
+			for i, x := range items {
+				xs.E = append(xs.E, mkStruct("ClonePair", "ID", int64(i), "Similarity", pct(x.sim), "Type", x.typ))
+			}
+			ts := &Slice{}
+			for _, t := range types {
+				ts.E = append(ts.E, t)
+			}
+			v, err := in.call1(sp, fd, mkStruct("CloneService"), xs, mkStruct("CloneRequest", "MinSimilarity", pct(lo), "MaxSimilarity", pct(hi), "CloneTypes", ts))
+			if err != nil {
+				return nil, err
+			}
+			var out []int64
+			if s, _ := v.(*Slice); s != nil {
+				for _, e := range s.E {
+					n, _ := e.(*Struct).F["ID"].(int64)
+					out = append(out, n)
+				}
+			}
+			return out, nil
+		}
+		if op, ok := probe3("filterClonePairs: similarity against MinSimilarity", func(rel int64) (bool, error) {
+			k, err := kept(50, 100, []int64{1}, []it{{50 + rel, 1}})
+			return len(k) == 0, err
+		}); ok {
+			emitQ("clone_filter_cmp_min", "filterClonePairs, pair.Similarity a against req.MinSimilarity b (true = dropped)", op)
+		}
+		if op, ok := probe3("filterClonePairs: similarity against MaxSimilarity", func(rel int64) (bool, error) {
+			k, err := kept(0, 50, []int64{1}, []it{{50 + rel, 1}})
+			return len(k) == 0, err
+		}); ok {
+			emitQ("clone_filter_cmp_max", "filterClonePairs, pair.Similarity a against req.MaxSimilarity b (true = dropped)", op)
+		}
+		// decision table over the four clone types: (((min, max), enabled types), pairs (similarity, type)) -> kept pairs
+		items := []it{{49, 1}, {50, 1}, {51, 2}, {80, 3}, {79, 4}, {81, 1}, {100, 1}, {100, 4}, {0, 2}, {65, 3}}
+		var rows []string
+		for _, cfg := range []struct {
+			lo, hi int64
+			types  []int64
+		}{{50, 100, []int64{1, 2, 3, 4}}, {50, 80, []int64{1, 2}}, {0, 100, []int64{}}, {80, 50, []int64{1, 2, 3, 4}}, {66, 100, []int64{4, 1}}, {0, 100, []int64{3, 3}}} {
+			k, err := kept(cfg.lo, cfg.hi, cfg.types, items)
+			if err != nil {
+				fail("filterClonePairs: cannot be evaluated: %v", err)
+				break
+			}
+			var its, ts, ks []string
+			for _, x := range items {
+				its = append(its, fmt.Sprintf("(%s, %s)", coqQfrac(x.sim, 100), coqZint(x.typ)))
+			}
+			for _, t := range cfg.types {
+				ts = append(ts, coqZint(t))
+			}
+			for _, i := range k {
+				ks = append(ks, fmt.Sprintf("(%s, %s)", coqQfrac(items[i].sim, 100), coqZint(items[i].typ)))
+			}
+			rows = append(rows, fmt.Sprintf("((((%s, %s), [%s]), [%s]), [%s])", coqQfrac(cfg.lo, 100), coqQfrac(cfg.hi, 100), strings.Join(ts, "; "), strings.Join(its, "; "), strings.Join(ks, "; ")))
+		}
+		emitTable(b, "serviceFilterClonePairs_table", "(((Q * Q) * list Z) * list (Q * Z)) * list (Q * Z)", rows)
 	}
 }
